@@ -1,5 +1,6 @@
 import Receptor.Drive.Util
 import Receptor.Model.Work
+import Receptor.Model.WorkNode
 import Receptor.Generated.Facts
 namespace Receptor.Drive.Work
 open Lean Receptor.Drive Receptor.Work
@@ -39,6 +40,42 @@ def redactHandle (op : String) (a r : Json) : Except String Reply := do
            sig := if holds then "" else (if leak then "C19/secret-value-disclosed"
                   else if (optField r "refused").isSome || (optField spec "refused").isSome then "C19/refusal-of-secrets-without-tls"
                   else "C19/reported-parameters-differ") }
+  | "history" =>
+    let steps ← getArr a "steps"
+    let ops ← steps.mapM fun st => do
+      let kind ← getStr st "kind"
+      let unit := (getNat st "unit").toOption.getD 0
+      let remote : TypeCfg := { isRemote := true, signWork := false, registered := true, verify := false }
+      let noTok : Token := { present := false, valid := false }
+      match kind with
+      | "submit" =>
+        let ps ← getParams st
+        let tls := ((getStr st "tls").toOption.getD "").toUTF8.toList.map (·.toNat)
+        pure (WorkNode.Op.cmd { sub := .submit, cfg := remote, params := ps, tls := tls, conn := .unix, tok := noTok })
+      | "restart" => pure WorkNode.Op.restart
+      | "status" => pure (WorkNode.Op.cmd { sub := .status, target := unit, conn := .other, tok := noTok })
+      | "list" => pure (WorkNode.Op.cmd { sub := .list, conn := .other, tok := noTok })
+      | "cancel" => pure (WorkNode.Op.cmd { sub := .cancel, target := unit, conn := .other, tok := noTok })
+      | "release" => pure (WorkNode.Op.cmd { sub := .release, target := unit, conn := .other, tok := noTok })
+      | "force-release" => pure (WorkNode.Op.cmd { sub := .forceRelease, target := unit, conn := .other, tok := noTok })
+      | k => throw s!"bad step {k}"
+    let outs := (WorkNode.run {} ops).2
+    let outJ (o : WorkNode.Out) : Json :=
+      match o with
+      | .done => jObj [("k", Json.str "done")]
+      | .refused _ => jObj [("k", Json.str "refused")]
+      | .refusedSecrets => jObj [("k", Json.str "refusedSecrets")]
+      | .notFound => jObj [("k", Json.str "notFound")]
+      | .restarted => jObj [("k", Json.str "restarted")]
+      | .shown l => jObj [("k", Json.str "shown"),
+          ("l", jArr (l.map fun q => jArr [jNat q.1, jArr ((sortPairs q.2).map fun e => jArr [jHex e.1, jHex e.2])]))]
+    let m := jObj [("outs", jArr (outs.map outJ)), ("leak", Json.bool false)]
+    let holds := canonEq r m
+    let leak := (getBool r "leak").toOption.getD false
+    pure { m := m, prop := some holds,
+           why := if holds then "" else (if leak then "a secret value appears in a response of the history"
+                  else "what the history's commands reported differs from the specification (expected " ++ m.compress ++ ")"),
+           sig := if holds then "" else (if leak then "C19/secret-value-disclosed" else "C19/history-differs-from-spec") }
   | _ => throw s!"bad-op redact {op}"
 
 def subOf : String → Sub
